@@ -50,6 +50,17 @@ def handle18 : List String → String
     else if !e && field err "err=" != "nil" then s!"diff ReadFrom returned '{field err "err="}' although every chunk fitted"
     else if field n "n=" != toString nn then s!"diff ReadFrom count: model {nn}, implementation {n}"
     else if e then "ok refused" else "ok"
+  | ["qfill", q, accepted, err] =>
+    if field accepted "accepted=" != field q "q=" then
+      s!"specviol a non-blocking channel configured with {field q "q="} queue slots accepted {field accepted "accepted="} payloads behind a stalled sender (the queue-full error must appear exactly when the configured queue is full)"
+    else if field err "err=" != "nospace" then s!"specviol the write that found the queue full returned '{field err "err="}' instead of the queue-full error"
+    else "ok refused"
+  | ["park", wait, early, late, errs, wirelen] =>
+    if field early "early=" != "0" then
+      s!"specviol blocking mode: {field early "early="} write(s) parked on a full queue returned within {field wait "wait="} ms although the sender was stalled, the channel open and no context ended"
+    else if field late "late=" != "2" || field errs "errs=" != "0" then s!"specviol blocking mode: parked writes were not accepted once the sender ran (returned {field late "late="}, errors {field errs "errs="})"
+    else if field wirelen "wirelen=" != "4" then s!"specviol blocking mode: {field wirelen "wirelen="} of 4 accepted bytes reached the transport"
+    else "ok refused"
   | _ => "bad-op"
 
 end Driver.C11
